@@ -8,3 +8,5 @@ import Norad.Props.C04
 #print axioms RT.layers_default_moved_to_front
 #print axioms RT.features_roundtrip
 #print axioms RT.font_roundtrip
+#print axioms RT.loaded_is_representable
+#print axioms RT.load_save_load_fixed_point
